@@ -183,6 +183,10 @@ func newLruObj(variant string, capacity int, nilCreate, nilDelete bool) (lruObj,
 			v := r.nextVid
 			r.nextVid++
 			exp := r.now.Add(time.Hour)
+			if v%2 == 0 {
+				// "never expires" as users write it: a date far beyond what a 64-bit nanosecond count can hold
+				exp = time.Date(9999, 12, 31, 23, 59, 59, 0, time.UTC)
+			}
 			if out == "stale" {
 				exp = r.now.Add(-time.Hour)
 				r.staleVid[v] = true
